@@ -222,7 +222,9 @@ def _native(name, fn):
 
 
 import contracts.c24_native as _n
-NATIVE = [_native("native:stale-buffered-value/write", lambda: _n.scenario_stale_pending(False)),
+NATIVE = [_native("native:buffered-value-of-another-register-survives/write", lambda: _n.scenario_buffered_value_of_another_register_survives(False)),
+          _native("native:buffered-value-of-another-register-survives/write_batch", lambda: _n.scenario_buffered_value_of_another_register_survives(True)),
+          _native("native:stale-buffered-value/write", lambda: _n.scenario_stale_pending(False)),
           _native("native:stale-buffered-value/write_batch", lambda: _n.scenario_stale_pending(True)),
           _native("native:float-after-None/write", lambda: _n.scenario_float_after_non_number(False, None)),
           _native("native:float-after-None/write_batch", lambda: _n.scenario_float_after_non_number(True, None)),
